@@ -22,7 +22,7 @@ PROPS = {
              assumptions=["as C11; canaries cover rbx, rbp, r12-r15, MXCSR rounding/masks and the x87 control word"]),
     "C12": P(160000, 3000000, expect_reach=["cancel.at_pop", "c12.state_transitions_observed", "c12.cancel_before_start", "c12.revives", "c12.self_migration_requests", "mix.revives", "mix.cancels_before_start"],
              assumptions=["one driver per unit issues create/cancel/join/revive/free sequentially (cancel races with the target's execution, not with its own join); the cancel deadline is checked at ABT_thread_yield and at a suspend that is resumed through a pool, not for direct hand-over resumes"]),
-    "C13": P(160000, 3000000, expect_reach=["migrate.at_pop", "migrate.request_handled", "c13.requests_via_xstream_or_sched", "c13.migrate_any_stream_checked", "c13.sequence_migrations", "c13.sequence_other_moves", "c13.requests_checked_must_be_honoured", "c13.requests_overlapping_scheduling_point"],
+    "C13": P(160000, 3000000, expect_reach=["migrate.at_pop", "migrate.request_handled", "c13.requests_via_xstream_or_sched", "c13.migrate_any_stream_checked", "c13.sequence_migrations", "c13.sequence_other_moves", "c13.requests_checked_must_be_honoured", "c13.requests_overlapping_scheduling_point", "c13.poolless_targets_refused"],
              assumptions=["per unit, requests come either from the unit itself or from one issuer, so accepted requests are totally ordered; a request overlapping a scheduling point may be honoured at that point or the next"]),
     "C14": P(160000, 3000000, expect_reach=["unit.tombstone_reused", "c14.translation_queries", "c14.units_created", "c14.handles_recycled", "c14.bulk_rounds"],
              assumptions=["unit handles are crafted integers that all hash to one bucket of the 256-entry table, recycled LIFO in half of the runs; translations are queried only for units that cannot move or be freed meanwhile (the caller's own unit, or a suspended ULT)"]),
